@@ -372,8 +372,25 @@ func verifyPayload(e *Exchange, signature *Signature) ([]byte, error) {
 	return decoded, nil
 }
 
+// isSameOrigin compares origins as (scheme, host, port) tuples (RFC 6454): host names are
+// case-insensitive and an absent port means the scheme's default port.
 func isSameOrigin(u1, u2 *url.URL) bool {
-	return u1.Scheme == u2.Scheme && u1.Host == u2.Host
+	return u1.Scheme == u2.Scheme &&
+		strings.EqualFold(u1.Hostname(), u2.Hostname()) &&
+		effectivePort(u1) == effectivePort(u2)
+}
+
+func effectivePort(u *url.URL) string {
+	if port := u.Port(); port != "" {
+		return port
+	}
+	switch u.Scheme {
+	case "https":
+		return "443"
+	case "http":
+		return "80"
+	}
+	return ""
 }
 
 func verifyHeaders(e *Exchange) error {
